@@ -101,7 +101,7 @@ def run(tier):
     seeds, _ = l3.grammar_seeds(dump)
     gm = {"GMDepth": "0", "GMSeeds": seeds, "GMKinds": '{"plain","email","empty","num","bool","null","dollar","date","oid","b64","nsname"}'}
     plan = [("RedactorTW", {"TWShapeKinds": '{"s","os","aos","xdate","xoid","xbin","ea"}' if tier == "quick" else "{}"}),
-            ("RedactorEW", {}), ("RedactorGM", gm)]
+            ("RedactorEW", {"EWDamaged": "TRUE"}), ("RedactorGM", gm)]
     if tier == "thorough":
         plan += [("RedactorFree", {"FreeDepth": "1"}), ("RedactorFree", {"FreeDepth": "2", "FreeSlots": '{"filter","pipeline"}'})]
     states = trans = 0
